@@ -16,11 +16,41 @@ def pairs_of(raw):
     return sorted(zip(arr[0], arr[1])) if arr and len(arr) == 2 and arr[0] else []
 
 
+def f15_class(c, rg, ra):
+    """known finding F15: the geometric strategy reports exactly the certified crossings, the algebraic one returns a subset of
+    them, and EVERY crossing it misses has an axis-parallel tangent on one of the two curves (exact derivatives)"""
+    if "exc" in rg or "exc" in ra:
+        return False
+    exp = sorted(c["expected"])
+    pg, pa = pairs_of(rg), pairs_of(ra)
+    close = lambda x, y: abs(x[0] - y[0]) <= TOL and abs(x[1] - y[1]) <= TOL
+    if len(pg) != len(exp) or not all(close(x, y) for x, y in zip(pg, exp)):
+        return False
+    if not all(any(close(p, e) for e in exp) for p in pa) or len(pa) >= len(exp):
+        return False
+    def deriv(rows, s):
+        n = len(rows[0]) - 1
+        return [n * io.oq.bernstein([r[i + 1] - r[i] for i in range(n)], s) for r in rows]
+    for e in exp:
+        if any(close(p, e) for p in pa):
+            continue
+        d1, d2 = deriv(c["c1"], e[0]), deriv(c["c2"], e[1])
+        # the certified parameters are exact at end points and accurate to 2^-40 elsewhere: exact zero test at end points only
+        if not (e[0] in (0, 1) or e[1] in (0, 1)):
+            return False
+        if not (d1[0] == 0 or d1[1] == 0 or d2[0] == 0 or d2[1] == 0):
+            return False
+    return True
+
+
 def run(ctx):
     prove(ctx, DEPS)
     n = 60 if ctx.quick() else 2000
     cases = [c for c in ic.gen_line_curve(ctx, n) if (len(c["c1"][0]) - 1) * (len(c["c2"][0]) - 1) <= 4]
     cases += ic.gen_curve_curve(ctx, 12 if ctx.quick() else 400, max_deg=2)          # 2-2 pairs certified by the resultant oracle
+    # pinned instance of known finding F15 (an end-point crossing with a vertical tangent)
+    cases.insert(0, {"c1": [[F(0), F(0), F(3)], [F(-1), F(3, 2), F(1, 2)]], "c2": [[F(-1), F(-1, 2), F(0)], [F(3, 2), F(-1, 2), F(-1)]],
+                     "expected": [(F(0), F(1))], "kind": "curve-curve:pinned-F15"})
     # degree-elevated presentations (the algebraic path must reduce first): every presented size up to 5 nodes for either
     # curve; the elevated net is rounded to binary64 (moves a simple crossing by rounding amounts only)
     extra = []
@@ -52,6 +82,14 @@ def run(ctx):
                     v = "strategies disagree: geometric %s, algebraic %s" % ([tuple(map(float, p)) for p in pg], [tuple(map(float, p)) for p in pa])
                 elif len(pa) != len(c["expected"]):
                     v = "both strategies report %d crossings, %d certified" % (len(pa), len(c["expected"]))
+            if v and f15_class(c, rg, ra):
+                stats["known"] = stats.get("known", 0) + 1
+                sig = ("F15 the algebraic strategy drops a simple crossing at which the tangent of one of the curves is parallel to a "
+                       "coordinate axis (x'(s) = 0 or y'(s) = 0 there): its locate_point solves ONE coordinate polynomial, which then has a "
+                       "double root, and a root at 1 + 2^-52 of the intersection polynomial moves it out of the unit interval")
+                if sig not in ctx.known_hits:
+                    ctx.known_hits.append(sig)
+                continue
             if v:
                 stats["failures"] += 1
                 if stats["failures"] <= 3:
